@@ -23,6 +23,7 @@ structure Inv (c : Cbuf) : Prop where
   /-- the replay index lies outside the unread region -/
   rep   : (c.iOut ≤ c.iIn → (c.iIn < c.iRep ∨ c.iRep ≤ c.iOut)) ∧
           (c.iIn < c.iOut → (c.iIn < c.iRep ∧ c.iRep ≤ c.iOut))
+  mpos  : 0 < c.minsize
 
 /-- executable mirror of the assertions of `cbuf_is_valid` (data pointer / magic cookies aside) -/
 def isValid (c : Cbuf) : Bool :=
@@ -34,7 +35,8 @@ def isValid (c : Cbuf) : Bool :=
    else decide (c.iRep > c.iIn ∧ c.iRep ≤ c.iOut)) &&
   decide (c.size - c.used = (c.iOut + (c.size + 1) - c.iIn - 1) % (c.size + 1))
 
-theorem isValid_of_inv {c : Cbuf} (h : Inv c) (hmin : 0 < c.minsize) : isValid c = true := by
+theorem isValid_of_inv {c : Cbuf} (h : Inv c) : isValid c = true := by
+  have hmin := h.mpos
   have := h.spos; have := h.smin; have := h.smax; have := h.alloc; have := h.used
   have := h.iin; have := h.iout; have := h.irep; have hio := h.inout; have hw := h.wrap
   have hr := h.rep
@@ -56,7 +58,7 @@ theorem inv_create {mn mx : Int} {sm : Nat} {c : Cbuf} (hsm : 0 < sm) (h : creat
     simp only [Option.some.injEq] at h
     subst h
     refine ⟨⟨by simp, by simp; omega, by simp, ?_, by simp; omega, by simp, by simp, by simp, by simp,
-      by simp, by simp, by simp⟩, by simp [contents, circRead]⟩
+      by simp, by simp, by simp, by simp; omega⟩, by simp [contents, circRead]⟩
     simp only
     split <;> omega
 
@@ -77,7 +79,7 @@ theorem inv_dropper {c : Cbuf} (hi : Inv c) (len : Nat) (h : len ≤ c.used) : I
   have := hi.iin; have := hi.iout; have := hi.irep; have hio := hi.inout; have hw := hi.wrap
   have hr := hi.rep
   have hmod := @wrap_cases (c.iOut + len) (c.size + 1) (by omega)
-  refine ⟨hi.dsize, hi.spos, hi.smin, hi.smax, hi.alloc, ?_, hi.iin, ?_, hi.irep, ?_, hw, ?_⟩
+  refine ⟨hi.dsize, hi.spos, hi.smin, hi.smax, hi.alloc, ?_, hi.iin, ?_, hi.irep, ?_, hw, ?_, hi.mpos⟩
   all_goals simp only [dropper]
   all_goals omega
 
